@@ -625,6 +625,9 @@ func mkBytes(c *vf.Ctx, base string, ct content) []byte {
 	}
 	b, err := os.ReadFile(f)
 	if err != nil {
+		if len(ct.Routers) == 0 && len(ct.Mappings) == 0 && os.IsNotExist(err) {
+			return []byte("{}") // an empty state on a fresh path: a missing file loads as the empty state too
+		}
 		c.Fatal("mkBytes: %v", err)
 	}
 	return b
@@ -842,7 +845,7 @@ func run(c *vf.Ctx) {
 				total += s.N
 			}
 		}
-		if total != len(newBytes) {
+		if total != len(newBytes) && len(prog) > 0 {
 			c.Fatal("observed writes (%d bytes) do not add up to the state file (%d bytes)", total, len(newBytes))
 		}
 		// expected snapshots
@@ -1011,11 +1014,19 @@ func run(c *vf.Ctx) {
 					offsets = []int{n - 1}
 				case "mid":
 					offsets = nil
-					limit := 96
-					if len(oldBytes) > 200000 {
-						limit = 10
+					// every byte offset (thorough) for the shutdown the property talks about - the first one, no earlier
+					// kill in the history - of states up to 64 kB; a sample elsewhere
+					kills := 0
+					for _, h := range path {
+						if h.Name == "kill" {
+							kills++
+						}
 					}
-					if (c.Thorough() && len(oldBytes) <= 200000) || n <= 200 {
+					limit := c.Pick(96, 400)
+					if len(oldBytes) > 200000 {
+						limit = c.Pick(10, 60)
+					}
+					if (c.Thorough() && a.Gen == 1 && kills == 1 && n <= 65536 && len(oldBytes) <= 200000) || n <= 200 {
 						for k := 2; k <= n-2; k++ {
 							offsets = append(offsets, k)
 						}
